@@ -758,8 +758,9 @@ def max_passes_now():
     return int(vals.get("ITER_MAX_PASSES", constants.DEFAULTS["ITER_MAX_PASSES"]))
 
 
-def shrink(case, failing):
-    """greedy shrinking: drop chunks' rows / merge chunks / drop dependencies while `failing(case)` stays true"""
+def shrink(case, failing, prepare=None):
+    """greedy shrinking: drop chunks' rows / merge chunks / drop dependencies while `failing(case)` stays true.
+    `prepare(cands)` may precompute something for all candidates of a round at once (the model outputs)."""
     import copy
     cur = copy.deepcopy(case)
     changed = True
@@ -792,9 +793,10 @@ def shrink(case, failing):
                     a["rows"] = a["rows"] + b["rows"]
                     del c2["deps"][i][j + 1]
                     cands.append(c2)
-        for c2 in cands:
+        pre = prepare(cands) if prepare else [None] * len(cands)
+        for c2, extra in zip(cands, pre):
             try:
-                if failing(c2):
+                if (failing(c2, extra) if prepare else failing(c2)):
                     cur = c2
                     changed = True
                     break
@@ -880,9 +882,12 @@ class Sink:
                 if self.first_disagree_at is None:
                     self.first_disagree_at = self.total
                 if self.n_disagree <= 3 and self.bad <= 6:
-                    def disagree(c):
-                        return fmt_real(real_run(c, timeout=2.0)) != lib.run_model("C08", [enc_case(c)])[0]
-                    small = shrink(case, disagree)
+                    def model_outs(cands):
+                        return lib.run_model("C08", [enc_case(c) for c in cands])
+
+                    def disagree(c, mo_c):
+                        return fmt_real(real_run(c, timeout=2.0)) != mo_c
+                    small = shrink(case, disagree, prepare=model_outs)
                     found = None
                     for nb in neighbourhood(small):      # search for a failing input around the disagreement
                         rr = real_run(nb, timeout=2.0)
